@@ -406,9 +406,16 @@ class Inputs:
             from scipy import sparse
 
             Q, _ = np.linalg.qr(rg.normal(size=(N, N)) + (0 if w.get("real") else 1j) * rg.normal(size=(N, N)))
-            self.full = {o: sparse.csr_array(Q @ v @ Q.conj().T) for o, v in self.full.items()}
             cols = [np.arange(self.offs[b], self.offs[b + 1]) for b in range(nb - 1)]
-            self.vecs = tuple(np.ascontiguousarray(Q[:, c]) for c in cols)  # the last block stays implicit
+            if w.get("pairs") and not w["herm"]:
+                # biorthogonal (right, left) bases of a non-Hermitian problem: L^dagger R = 1 with L != R
+                scale = rg.uniform(0.6, 1.6, size=N)
+                R, L = Q * scale, Q / scale
+                self.full = {o: sparse.csr_array(R @ v @ L.conj().T) for o, v in self.full.items()}
+                self.vecs = tuple((np.ascontiguousarray(R[:, c]), np.ascontiguousarray(L[:, c])) for c in cols)
+            else:
+                self.full = {o: sparse.csr_array(Q @ v @ Q.conj().T) for o, v in self.full.items()}
+                self.vecs = tuple(np.ascontiguousarray(Q[:, c]) for c in cols)  # the last block stays implicit
         if w["fmt"] == "scalar_vecs":
             Q, _ = np.linalg.qr(rg.normal(size=(N, N)) + 1j * rg.normal(size=(N, N)))
             if w["herm"]:
@@ -1511,6 +1518,7 @@ class GraphProp:
             w["cap"] = 3 if npert == 1 else 2
             w["sectors"] = False
             w["zero_level"] = False
+            w["pairs"] = bool(not herm and r.random() < 0.5)
             w.pop("illposed", None)
             w["complex_e"] = False
             for spec in comps:
